@@ -90,6 +90,22 @@ def run(ck):
                 cases.append((f'r{k}{name}', f'rel_close (8#1000000) ({coq_Q(v)} * {coq_Q(v)}) (mse {coq_Qmat(T.tolist())} {coq_Qmat(P.tolist())}) && Qle_bool 0 {coq_Q(v)}'))
             else:
                 cases.append((f'r{k}{name}', f'rel_close (3#1000000) {coq_Q(v)} ({name} {coq_Qmat(T.tolist())} {coq_Qmat(P.tolist())})'))
+    # ---------- integer-typed regression targets (count data held as int64 / int32 tensors) with float predictions: the residual is a float ----------
+    irng = np.random.default_rng(ck.seed + 1661)
+    for k in range(ck.n(12, 60)):
+        n = int(irng.integers(2, 10)); m = int(irng.integers(1, 3))
+        Ti = irng.integers(-5, 9, size=(n, m)); Pi = (Ti + irng.choice([63 / 64, -1 / 64, 0.5, -0.75, 0.25], size=(n, m))).astype(np.float32)
+        for idt in (torch.int64, torch.int32):
+            for name, orc in (('mse', o_mse), ('mae', o_mae), ('rmse', o_mse)):
+                try:
+                    v = float(Metric.from_name(name).compute(y_true_reg=torch.tensor(Ti, dtype=idt), y_pred=torch.tensor(Pi)))
+                except Exception as e:
+                    ck.count(f'{name}: integer-typed targets rejected ({type(e).__name__})'); continue       # rejecting them is not a wrong value
+                want = orc(Ti.astype(np.float32), Pi); wantf = math.sqrt(want) if name == 'rmse' else float(want)
+                ck.case(dict(metric=name, kind='integer targets', dtype=str(idt), T=Ti.tolist(), P=Pi.tolist(), value=v), nontrivial=True); ck.count(f'{name}:integer-typed targets')
+                if abs(v - wantf) > 3e-6 * (1 + abs(wantf)):
+                    ck.violation(f'{name} returned {v} on {idt} targets {Ti.tolist()} with float predictions {Pi.tolist()}, textbook value {wantf}',
+                                 dict(metric=name, T=Ti.tolist(), P=Pi.tolist(), got=v, want=wantf, dtype=str(idt)), key=json.dumps(dict(site='value', metric=name, kind='integer-targets')))
     # ---------- large validation sets: more rows than any internal block size, not a multiple of a power of two; residuals concentrated in the last rows ----------
     for nbig in (32_773, 70_001):
         for mcols in (1, 2):
